@@ -540,7 +540,7 @@ func (w *walker) featureList(pos int) {
 		w.mark(ft, 2, "featureParamsOffset")
 		lc := w.u16(ft+2, "lookupIndexCount")
 		w.mark(ft+4, 2*lc, "lookupListIndices")
-		if len(w.res.Features) < 200 {
+		if len(w.res.Features) < 2000 {
 			w.res.Features = append(w.res.Features, fmt.Sprintf("%s:%d", string(w.d[rec:rec+4]), lc))
 		}
 	}
